@@ -89,7 +89,11 @@ func (e *Eng) obligations() {
 	e.ndstream()
 	e.ndstreamChunks()
 	e.ndstreamMore()
+	e.ndstreamErrors()
 	e.filterNotMutated()
+	e.familiesSameArguments()
+	e.reviewedGlobals()
+	e.compressModeComplete()
 	e.automaton()
 	e.codec()
 	e.codecConfig()
